@@ -189,8 +189,8 @@ Definition stat_agrees (FI : Type) (Stat : string -> FI * option GoLib.err) (IsR
            (notexist : GoLib.err -> bool) (w : fs) : Prop :=
   forall p,
     match stat w p with
-    | SNotExist => exists fi e, Stat p = (fi, Some e) /\ chain_is notexist e = true
-    | SOtherErr => exists fi e, Stat p = (fi, Some e) /\ chain_is notexist e = false
+    | SNotExist => exists fi e, Stat p = (fi, Some e) /\ chain_is notexist e = true /\ fmt_invalid e = false
+    | SOtherErr => exists fi e, Stat p = (fi, Some e) /\ chain_is notexist e = false /\ fmt_invalid e = false
     | SOk n => exists fi, Stat p = (fi, None)
                           /\ IsRegular fi = match n with NFile _ _ => true | NDir => false end
     end.
@@ -209,14 +209,14 @@ Proof.
   intros FI Stat IsReg ne w Hd Hs name p.
   unfold new_cli_abs, gen_plugin_NewCLIPlugin, new_cli_plugin.
   specialize (Hs p). destruct (stat w p) as [| |n].
-  - destruct Hs as [fi [e [Hs Hc]]]. rewrite Hs. cbn [GoLib.is_none negb fst snd ptr_val option_map olist].
+  - destruct Hs as [fi [e [Hs [Hc _]]]]. rewrite Hs. cbn [GoLib.is_none negb fst snd ptr_val option_map olist].
     unfold errc. eval_fmt_invalid. rewrite (chain_is_wrap1 ne Hd), Hc. reflexivity.
-  - destruct Hs as [fi [e [Hs Hc]]]. rewrite Hs. cbn [GoLib.is_none negb fst snd ptr_val option_map olist].
+  - destruct Hs as [fi [e [Hs [Hc _]]]]. rewrite Hs. cbn [GoLib.is_none negb fst snd ptr_val option_map olist].
     unfold errc. eval_fmt_invalid. rewrite (chain_is_wrap1 ne Hd), Hc. reflexivity.
   - destruct Hs as [fi [Hs Hr]]. rewrite Hs. cbn [GoLib.is_none negb]. rewrite Hr.
     destruct n as [|x m]; cbn [negb fst snd ptr_val option_map].
-    + unfold plugin_ErrNotRegularFile, errc. eval_fmt_invalid.
-      rewrite (chain_is_leaf ne Hd) by (right; reflexivity). reflexivity.
+    + (* the sentinel plugin.ErrNotRegularFile, whatever its encoding: a library leaf *)
+      rewrite (errc_lib_leaf ne Hd plugin_ErrNotRegularFile) by (vm_compute; reflexivity). reflexivity.
     + reflexivity.
 Qed.
 Print Assumptions C16_gen_NewCLIPlugin_equiv.
@@ -327,91 +327,280 @@ Print Assumptions C16_gen_validate_rejects_empty_name.
 Definition key_plugin : string := "io.cncf.notary.verificationPlugin".
 Definition key_min_version : string := "io.cncf.notary.verificationPluginMinVersion".
 
-(* direct characterisation, every oracle: an error of the extraction is passed
-   on unchanged, a blank value (strings.TrimSpace, Unicode white space in UTF-8 =
-   the model's all_space, every byte string) is an error, anything else is
-   returned as it is *)
-Theorem C16_gen_getVerificationPlugin_spec : forall SI extract si,
-  match extract si key_plugin with
-  | (_, Some e) => gen_verifier_getVerificationPlugin SI extract si = ("", Some e)
-  | (name, None) =>
-      if all_space name
-      then exists e, gen_verifier_getVerificationPlugin SI extract si = ("", Some e)
-      else gen_verifier_getVerificationPlugin SI extract si = (name, None)
+(* how the model classifies what notation-core-go's SignerInfo.ExtendedAttribute
+   (the oracle) returned: a FUNCTION of the oracle's answer, no hypothesis *)
+Definition vattr_of (r : signature_Attribute * option GoLib.err) : vattr :=
+  match r with
+  | (_, Some _) => VAbsent
+  | (a, None) =>
+      if Attribute_Critical a
+      then (if snd (any_str "string" (Attribute_Value a))
+            then VStr (fst (any_str "string" (Attribute_Value a))) else VNotString)
+      else VNotCritical (fst (any_str "string" (Attribute_Value a)))
+  end.
+
+(* extractCriticalStringExtendedAttribute (now translated: comma-ok assertion on
+   the `any` value): absent -> exactly the sentinel errExtendedAttributeNotExist,
+   not critical / not a string -> another error made by fmt.Errorf, else the string *)
+Theorem C16_gen_extract_equiv : forall SI EA si key,
+  match vattr_of (EA si key) with
+  | VAbsent => gen_verifier_extractCriticalStringExtendedAttribute SI EA si key
+               = ("", verifier_errExtendedAttributeNotExist)
+  | VStr s => gen_verifier_extractCriticalStringExtendedAttribute SI EA si key = (s, None)
+  | _ => exists e, gen_verifier_extractCriticalStringExtendedAttribute SI EA si key = ("", Some e)
+                   /\ err_typ e = "fmt"
   end.
 Proof.
-  intros SI extract si. unfold gen_verifier_getVerificationPlugin, key_plugin.
-  destruct (extract si _) as [name [e|]]; cbn [GoLib.is_none negb]; [reflexivity|].
-  rewrite trim_space_empty_all_space. destruct (all_space name); [eexists|]; reflexivity.
+  intros SI EA si key. unfold gen_verifier_extractCriticalStringExtendedAttribute, vattr_of.
+  destruct (EA si key) as [a [e|]]; cbn [GoLib.is_none negb]; [reflexivity|].
+  destruct (Attribute_Critical a); cbn [negb].
+  - destruct (any_str "string" (Attribute_Value a)) as [v ok]. cbn [fst snd].
+    destruct ok; cbn [negb]; [reflexivity|]. eexists; split; reflexivity.
+  - eexists; split; reflexivity.
 Qed.
-Print Assumptions C16_gen_getVerificationPlugin_spec.
+Print Assumptions C16_gen_extract_equiv.
 
-(* the extraction oracle answers like the model's classification of the attribute *)
-Definition attr_agrees (SI : Type) (extract : SI -> string -> string * option GoLib.err)
-           (si : SI) (a : vattr) : Prop :=
-  match a with
-  | VStr s => extract si key_plugin = (s, None)
-  | _ => exists n e, extract si key_plugin = (n, Some e)
+(* the sentinel is not an error made by fmt.Errorf: processSignature's test
+   `err != errExtendedAttributeNotExist` separates "no plugin" from "stop" *)
+Theorem C16_gen_not_exist_sentinel_distinct :
+  match verifier_errExtendedAttributeNotExist with
+  | Some e => err_typ e <> "fmt"
+  | None => False
   end.
+Proof. vm_compute. discriminate. Qed.
+Print Assumptions C16_gen_not_exist_sentinel_distinct.
 
-Theorem C16_gen_getVerificationPlugin_equiv : forall SI extract si a,
-  attr_agrees SI extract si a ->
-  match verification_plugin_stage a with
-  | NSName s => gen_verifier_getVerificationPlugin SI extract si = (s, None)
-  | _ => exists e, gen_verifier_getVerificationPlugin SI extract si = ("", Some e)
+(* getVerificationPlugin = the first stage of the model's verify_plan, for every
+   answer of the oracle; strings.TrimSpace = all_space on every byte string *)
+Theorem C16_gen_getVerificationPlugin_equiv : forall SI EA si,
+  match verification_plugin_stage (vattr_of (EA si key_plugin)) with
+  | NSName s => gen_verifier_getVerificationPlugin SI EA si = (s, None)
+  | NSNoPlugin => gen_verifier_getVerificationPlugin SI EA si = ("", verifier_errExtendedAttributeNotExist)
+  | NSError _ => exists e, gen_verifier_getVerificationPlugin SI EA si = ("", Some e) /\ err_typ e = "fmt"
   end.
 Proof.
-  intros SI extract si a H. pose proof (C16_gen_getVerificationPlugin_spec SI extract si) as S.
-  destruct a as [|s| |s]; cbn [attr_agrees verification_plugin_stage] in *.
-  1-3: destruct H as [n [e H]]; rewrite H in S; exists e; exact S.
-  rewrite H in S. destruct (all_space s); exact S.
+  intros SI EA si. pose proof (C16_gen_extract_equiv SI EA si key_plugin) as X.
+  unfold gen_verifier_getVerificationPlugin. fold key_plugin.
+  destruct (vattr_of (EA si key_plugin)) as [|s| |s]; cbn [verification_plugin_stage].
+  - rewrite X. destruct verifier_errExtendedAttributeNotExist eqn:E; [reflexivity|].
+    exfalso. pose proof C16_gen_not_exist_sentinel_distinct as D. rewrite E in D. exact D.
+  - destruct X as [e [X T]]. rewrite X. cbn [GoLib.is_none negb]. exists e. split; [reflexivity|exact T].
+  - destruct X as [e [X T]]. rewrite X. cbn [GoLib.is_none negb]. exists e. split; [reflexivity|exact T].
+  - rewrite X. cbn [GoLib.is_none negb]. rewrite trim_space_empty_all_space.
+    destruct (all_space s); [eexists; split; reflexivity|reflexivity].
 Qed.
 Print Assumptions C16_gen_getVerificationPlugin_equiv.
 
 (* C16_from_signature / C16_signature_attribute_calls on the code as translated:
    whatever the manager is called with by the model's plan is the string the
    generated getVerificationPlugin returned, and that string is not blank *)
-Theorem C16_gen_signature_name_to_manager : forall SI extract si a mb pm s,
-  attr_agrees SI extract si a ->
-  In (CGet s) (snd (verify_plan a mb pm)) ->
-  gen_verifier_getVerificationPlugin SI extract si = (s, None) /\ all_space s = false.
+Theorem C16_gen_signature_name_to_manager : forall SI EA si mb pm s,
+  In (CGet s) (snd (verify_plan (vattr_of (EA si key_plugin)) mb pm)) ->
+  gen_verifier_getVerificationPlugin SI EA si = (s, None) /\ all_space s = false.
 Proof.
-  intros SI extract si a mb pm s H HI. apply verify_plan_calls_stage in HI.
-  pose proof (C16_gen_getVerificationPlugin_equiv SI extract si a H) as E. rewrite HI in E.
-  split; [exact E|]. destruct a as [|x| |x]; cbn in HI; try discriminate.
+  intros SI EA si mb pm s HI. apply verify_plan_calls_stage in HI.
+  pose proof (C16_gen_getVerificationPlugin_equiv SI EA si) as E. rewrite HI in E.
+  split; [exact E|]. destruct (vattr_of (EA si key_plugin)) as [|x| |x]; cbn in HI; try discriminate.
   destruct (all_space x) eqn:A; [discriminate|]. now inversion HI; subst.
 Qed.
 Print Assumptions C16_gen_signature_name_to_manager.
 
 (* conversely: when the generated function fails, the model's plan calls nothing *)
-Theorem C16_gen_signature_error_no_call : forall SI extract si a mb pm n e,
-  attr_agrees SI extract si a ->
-  gen_verifier_getVerificationPlugin SI extract si = (n, Some e) ->
-  snd (verify_plan a mb pm) = [].
+Theorem C16_gen_signature_error_no_call : forall SI EA si mb pm n e,
+  gen_verifier_getVerificationPlugin SI EA si = (n, Some e) ->
+  snd (verify_plan (vattr_of (EA si key_plugin)) mb pm) = [].
 Proof.
-  intros SI extract si a mb pm n e H G. rewrite verify_plan_stages.
-  pose proof (C16_gen_getVerificationPlugin_equiv SI extract si a H) as E.
-  destruct (verification_plugin_stage a) as [|c|s]; [reflexivity|reflexivity|congruence].
+  intros SI EA si mb pm n e G. rewrite verify_plan_stages.
+  pose proof (C16_gen_getVerificationPlugin_equiv SI EA si) as E.
+  destruct (verification_plugin_stage (vattr_of (EA si key_plugin))) as [|c|s]; [reflexivity|reflexivity|congruence].
 Qed.
 Print Assumptions C16_gen_signature_error_no_call.
 
-(* getVerificationPluginMinVersion: fails exactly when the extraction fails, the
-   value is blank, or it is not a semantic version (oracle semver.IsValid) *)
-Theorem C16_gen_getVerificationPluginMinVersion_spec : forall SI extract is_valid si,
-  match extract si key_min_version with
-  | (_, Some e) => gen_verifier_getVerificationPluginMinVersion SI extract is_valid si = ("", Some e)
-  | (v, None) =>
+(* getVerificationPluginMinVersion: fails exactly when the attribute is not a
+   critical string, the value is blank, or it is not a semantic version (oracle
+   semver.IsValid) *)
+Theorem C16_gen_getVerificationPluginMinVersion_spec : forall SI EA is_valid si,
+  match vattr_of (EA si key_min_version) with
+  | VStr v =>
       if all_space v || negb (is_valid v)
-      then exists e, gen_verifier_getVerificationPluginMinVersion SI extract is_valid si = ("", Some e)
-      else gen_verifier_getVerificationPluginMinVersion SI extract is_valid si = (v, None)
+      then exists e, gen_verifier_getVerificationPluginMinVersion SI EA is_valid si = ("", Some e)
+                     /\ err_typ e = "fmt"
+      else gen_verifier_getVerificationPluginMinVersion SI EA is_valid si = (v, None)
+  | VAbsent => gen_verifier_getVerificationPluginMinVersion SI EA is_valid si
+               = ("", verifier_errExtendedAttributeNotExist)
+  | _ => exists e, gen_verifier_getVerificationPluginMinVersion SI EA is_valid si = ("", Some e)
+                   /\ err_typ e = "fmt"
   end.
 Proof.
-  intros SI extract is_valid si. unfold gen_verifier_getVerificationPluginMinVersion, key_min_version.
-  destruct (extract si _) as [v [e|]]; cbn [GoLib.is_none negb]; [reflexivity|].
-  rewrite trim_space_empty_all_space. destruct (all_space v); cbn [orb]; [eexists; reflexivity|].
-  destruct (is_valid v); cbn [negb]; [|eexists]; reflexivity.
+  intros SI EA is_valid si. pose proof (C16_gen_extract_equiv SI EA si key_min_version) as X.
+  unfold gen_verifier_getVerificationPluginMinVersion. fold key_min_version.
+  destruct (vattr_of (EA si key_min_version)) as [|s| |s].
+  - rewrite X. destruct verifier_errExtendedAttributeNotExist eqn:E; [reflexivity|].
+    exfalso. pose proof C16_gen_not_exist_sentinel_distinct as D. rewrite E in D. exact D.
+  - destruct X as [e [X T]]. rewrite X. cbn [GoLib.is_none negb]. exists e. split; [reflexivity|exact T].
+  - destruct X as [e [X T]]. rewrite X. cbn [GoLib.is_none negb]. exists e. split; [reflexivity|exact T].
+  - rewrite X. cbn [GoLib.is_none negb]. rewrite trim_space_empty_all_space.
+    destruct (all_space s); cbn [orb]; [eexists; split; reflexivity|].
+    destruct (is_valid s); cbn [negb]; [reflexivity|eexists; split; reflexivity].
 Qed.
 Print Assumptions C16_gen_getVerificationPluginMinVersion_spec.
+
+(* ================================================================== *)
+(* 6. dir.sysFS.SysPath, CLIManager.Uninstall, isExecutableFile         *)
+
+(* SysPath(items...) joins the root in front of the items (oracle filepath.Join) *)
+Theorem C16_gen_SysPath_equiv : forall Join s items,
+  gen_dir_sysFS_SysPath Join s items = (Join (sysFS_root s :: items), None).
+Proof. reflexivity. Qed.
+Print Assumptions C16_gen_SysPath_equiv.
+
+(* the manager's file system (interface dir.SysFS, an oracle of Uninstall)
+   answers like sysFS{root}.SysPath with filepath.Join = the model's pjoin
+   (pjoin is tied to filepath.Join by the harness family "path") *)
+Definition syspath_agrees (SysPath : list string -> string * option GoLib.err) (root : string) : Prop :=
+  forall items, SysPath items = (pjoin (root :: items), None).
+
+Theorem C16_gen_SysPath_agrees : forall Join root,
+  (forall l, Join l = pjoin l) -> syspath_agrees (gen_dir_sysFS_SysPath Join (mk_sysFS root)) root.
+Proof. intros Join root H items. rewrite C16_gen_SysPath_equiv. cbn [sysFS_root]. now rewrite H. Qed.
+Print Assumptions C16_gen_SysPath_agrees.
+
+(* Uninstall, every behaviour of every oracle: validation first; then ONE path,
+   SysPath(name); stat it; remove exactly it *)
+Theorem C16_gen_Uninstall_spec : forall FI Stat SysPath RemoveAll m name,
+  gen_plugin_CLIManager_Uninstall FI Stat SysPath RemoveAll m name =
+  match gen_plugin_validatePluginName name with
+  | Some e => Some e
+  | None =>
+      match SysPath [name] with
+      | (_, Some e) => Some e
+      | (p, None) => match Stat p with (_, Some e) => Some e | (_, None) => RemoveAll p end
+      end
+  end.
+Proof.
+  intros. unfold gen_plugin_CLIManager_Uninstall.
+  destruct (gen_plugin_validatePluginName name) as [e|]; cbn [GoLib.is_none negb]; [reflexivity|].
+  destruct (SysPath [name]) as [p [e|]]; cbn [GoLib.is_none negb]; [reflexivity|].
+  destruct (Stat p) as [fi [e|]]; reflexivity.
+Qed.
+Print Assumptions C16_gen_Uninstall_spec.
+
+(* a refused name: the result is the validation error whatever the operating
+   system and the file system object are (none of them is consulted) *)
+Theorem C16_gen_Uninstall_rejected : forall FI Stat SysPath RemoveAll m name e,
+  gen_plugin_validatePluginName name = Some e ->
+  gen_plugin_CLIManager_Uninstall FI Stat SysPath RemoveAll m name = Some e.
+Proof. intros. rewrite C16_gen_Uninstall_spec, H. reflexivity. Qed.
+Print Assumptions C16_gen_Uninstall_rejected.
+
+(* footprint: the result depends on the operating system only through what
+   Stat and RemoveAll answer on the one path SysPath(name) *)
+Theorem C16_gen_Uninstall_footprint : forall FI Stat Stat' SysPath RemoveAll RemoveAll' m name,
+  let p := fst (SysPath [name]) in
+  Stat p = Stat' p -> RemoveAll p = RemoveAll' p ->
+  gen_plugin_CLIManager_Uninstall FI Stat SysPath RemoveAll m name
+  = gen_plugin_CLIManager_Uninstall FI Stat' SysPath RemoveAll' m name.
+Proof.
+  intros FI Stat Stat' SysPath RA RA' m name p HS HR. rewrite !C16_gen_Uninstall_spec.
+  destruct (gen_plugin_validatePluginName name); [reflexivity|]. subst p.
+  destruct (SysPath [name]) as [q [e|]]; [reflexivity|]. cbn [fst] in *. rewrite <- HS, <- HR. reflexivity.
+Qed.
+Print Assumptions C16_gen_Uninstall_footprint.
+
+(* = the model's uninstall: same error class; where the model removes, the
+   generated function returns what RemoveAll answers on the model's path
+   <root>/<name> (the path of every entry of the model's effect log) *)
+Theorem C16_gen_Uninstall_equiv :
+  forall FI Stat IsRegular SysPath RemoveAll notexist w root,
+    stat_agrees FI Stat IsRegular notexist w -> syspath_agrees SysPath root ->
+    forall m name,
+      let g := gen_plugin_CLIManager_Uninstall FI Stat SysPath RemoveAll m name in
+      match uninstall w root name with
+      | (ENone, w', l) => g = RemoveAll (pjoin [root; name])
+                          /\ l = [EStat (pjoin [root; name]); ERemoveAll (pjoin [root; name])]
+      | (c, w', l) => errc notexist g = c /\ w' = w
+                      /\ (l = [] \/ l = [EStat (pjoin [root; name])])
+      end.
+Proof.
+  intros FI Stat IsReg SysPath RA ne w root Hs Hp m name. cbn zeta.
+  rewrite C16_gen_Uninstall_spec, uninstall_is_validate_then_stat.
+  destruct (gen_validate_cases name) as [[V G]|[V [e [G F]]]]; rewrite V, G.
+  - cbn zeta. rewrite (Hp [name]). specialize (Hs (pjoin [root; name])).
+    destruct (stat w (pjoin [root; name])) as [| |n].
+    + destruct Hs as [fi [e [Hs [Hc Hf]]]]. rewrite Hs. unfold errc. rewrite Hf, Hc. tauto.
+    + destruct Hs as [fi [e [Hs [Hc Hf]]]]. rewrite Hs. unfold errc. rewrite Hf, Hc. tauto.
+    + destruct Hs as [fi [Hs _]]. rewrite Hs. tauto.
+  - unfold errc. rewrite F. tauto.
+Qed.
+Print Assumptions C16_gen_Uninstall_equiv.
+
+(* C16_rejected / C16_contained for Uninstall on the code as translated: refused
+   names consult nothing; an accepted name makes SysPath(name) the direct child
+   <clean root>/<name>, the only path stat'ed and removed *)
+Theorem C16_gen_Uninstall_contained :
+  forall FI Stat SysPath RemoveAll root m name,
+    is_abs root = true -> syspath_agrees SysPath root ->
+    gen_plugin_validatePluginName name = None ->
+    gen_plugin_CLIManager_Uninstall FI Stat SysPath RemoveAll m name
+    = match Stat (allowed root name) with
+      | (_, Some e) => Some e
+      | (_, None) => RemoveAll (allowed root name)
+      end.
+Proof.
+  intros FI Stat SysPath RA root m name A Hp G. rewrite C16_gen_Uninstall_spec, G, (Hp [name]).
+  apply C16_gen_validatePluginName_nil_iff in G. rewrite (dir_path root name A G). reflexivity.
+Qed.
+Print Assumptions C16_gen_Uninstall_contained.
+
+(* isExecutableFile (view Mode() of the opaque FileInfo; FileMode.IsRegular and
+   FileMode.Perm translated from io/fs): the model's stat + x bit *)
+Definition mode_agrees (FI : Type) (Stat : string -> FI * option GoLib.err) (Mode : FI -> Z)
+           (notexist : GoLib.err -> bool) (w : fs) : Prop :=
+  forall p,
+    match stat w p with
+    | SNotExist => exists fi e, Stat p = (fi, Some e) /\ chain_is notexist e = true /\ fmt_invalid e = false
+    | SOtherErr => exists fi e, Stat p = (fi, Some e) /\ chain_is notexist e = false /\ fmt_invalid e = false
+    | SOk NDir => exists fi, Stat p = (fi, None) /\ gen_fs_FileMode_IsRegular (Mode fi) = false
+    | SOk (NFile x _) =>
+        exists fi, Stat p = (fi, None) /\ gen_fs_FileMode_IsRegular (Mode fi) = true
+                   /\ Z.testbit (Mode fi) 6 = x           (* 0100: the owner's x bit *)
+    end.
+
+Lemma perm_bit_0100 m :
+  negb (Z.eqb (Z.land (gen_fs_FileMode_Perm m) 64) 0) = Z.testbit m 6.
+Proof.
+  unfold gen_fs_FileMode_Perm. rewrite <- Z.land_assoc.
+  change (Z.land 511 64) with (2 ^ 6)%Z.
+  destruct (Z.testbit m 6) eqn:T.
+  - apply negb_true_iff, Z.eqb_neq. intros H.
+    assert (X : Z.testbit (Z.land m (2 ^ 6)) 6 = true).
+    { rewrite Z.land_spec, T, Z.pow2_bits_true by lia. reflexivity. }
+    rewrite H in X. cbn in X. discriminate.
+  - apply negb_false_iff, Z.eqb_eq. apply Z.bits_inj'. intros n Hn.
+    rewrite Z.land_spec, Z.bits_0, Z.pow2_bits_eqb by lia.
+    destruct (Z.eqb_spec 6 n) as [<-|]; [rewrite T; reflexivity|apply andb_false_r].
+Qed.
+
+Theorem C16_gen_isExecutableFile_equiv :
+  forall FI Stat Mode notexist w,
+    lib_errors_distinct notexist -> mode_agrees FI Stat Mode notexist w ->
+    forall p,
+      (fst (gen_plugin_isExecutableFile FI Stat Mode p),
+       errc notexist (snd (gen_plugin_isExecutableFile FI Stat Mode p)))
+      = is_executable_file w p.
+Proof.
+  intros FI Stat Mode ne w Hd Hm p. unfold gen_plugin_isExecutableFile, is_executable_file.
+  specialize (Hm p). destruct (stat w p) as [| |[|x md]].
+  - destruct Hm as [fi [e [Hs [Hc Hf]]]]. rewrite Hs. cbn [GoLib.is_none negb fst snd].
+    unfold errc. rewrite Hf, Hc. reflexivity.
+  - destruct Hm as [fi [e [Hs [Hc Hf]]]]. rewrite Hs. cbn [GoLib.is_none negb fst snd].
+    unfold errc. rewrite Hf, Hc. reflexivity.
+  - destruct Hm as [fi [Hs Hr]]. rewrite Hs. cbn [GoLib.is_none negb]. rewrite Hr. cbn [negb fst snd].
+    rewrite (errc_lib_leaf ne Hd plugin_ErrNotRegularFile) by (vm_compute; reflexivity). reflexivity.
+  - destruct Hm as [fi [Hs [Hr Hx]]]. rewrite Hs. cbn [GoLib.is_none negb]. rewrite Hr. cbn [negb fst snd].
+    rewrite perm_bit_0100, Hx. reflexivity.
+Qed.
+Print Assumptions C16_gen_isExecutableFile_equiv.
 
 (* ---------- non-vacuity: the oracle hypotheses can be met ---------- *)
 
@@ -442,11 +631,10 @@ Example C16_gen_example :
   /\ gen_plugin_parsePluginName "notation-good" = ("good", None).
 Proof.
   split; [|split].
-  - intros t f ws H. unfold ex_notexist in H. cbn [err_typ] in H. apply String.eqb_eq in H. subst t.
-    split; discriminate.
+  - intros e H. unfold ex_notexist in H. apply String.eqb_eq in H. rewrite H. reflexivity.
   - intros p. unfold ex_Stat. destruct (stat ex_world p) as [| |n].
-    + eexists; eexists; split; reflexivity.
-    + eexists; eexists; split; reflexivity.
+    + eexists; eexists; repeat split; reflexivity.
+    + eexists; eexists; repeat split; reflexivity.
     + eexists; split; [reflexivity|]. destruct n; reflexivity.
   - vm_compute. repeat split; discriminate.
 Qed.
